@@ -144,7 +144,10 @@ def decodeEntry (ops : DetailOps D) (ty : DType) (ds : Delegations D) (k : Strin
   match v with
   | .obj e =>
     match lookup fieldPoolId e with
-    | some pv => do
+    | some pv =>
+      -- an entry mixing capacities and labels is rejected (repaired: the other type's content used to be dropped)
+      if (lookup fieldCapacities e).isSome && (lookup fieldLabels e).isSome then .error .delegation
+      else do
       let pool ← poolOf pv
       let (fmt, pool) := if pool = some singlePoolName then (Fmt.single, none) else (Fmt.definition, pool)
       match lookup (detailsKey ty) e with
